@@ -33,7 +33,7 @@ var vkOps = []*vkOp{
 	{Name: "AxpyUnitary", Family: "Axpy", Classes: vkAll, Approx: true, Ref: ik.RefAxpyUnitary[complex64],
 		Shape: ik.Shape{HasX: true, HasY: true, WritesY: true, Alpha: true},
 		Call:  func(a *vkArgs) { AxpyUnitary(a.Alpha, a.X, a.Y) }},
-	{Name: "AxpyUnitaryTo", Family: "Axpy", Classes: vkAll, Approx: true, Ref: ik.RefAxpyUnitaryTo[complex64],
+	{Name: "AxpyUnitaryTo", Family: "Axpy", Classes: vkAll, Approx: true, GuardN1: true, Ref: ik.RefAxpyUnitaryTo[complex64],
 		Shape: ik.Shape{HasX: true, HasY: true, HasDst: true, Alpha: true, AliasX: true, AliasY: true},
 		Call:  func(a *vkArgs) { AxpyUnitaryTo(a.Dst, a.Alpha, a.X, a.Y) }},
 	{Name: "AxpyInc", Family: "Axpy", Classes: vkAll, Approx: true, Ref: ik.RefAxpyInc[complex64],
@@ -84,10 +84,10 @@ var vkOps = []*vkOp{
 	{Name: "AddConst", Family: "Elem", Classes: vkAll, Ref: ik.RefAddConst[complex64],
 		Shape: ik.Shape{HasX: true, WritesX: true, Alpha: true},
 		Call:  func(a *vkArgs) { AddConst(a.Alpha, a.X) }},
-	{Name: "CumSum", Family: "Elem", Classes: vkAll, Ref: ik.RefCumSum[complex64],
+	{Name: "CumSum", Family: "Elem", Classes: vkAll, Ref: ik.RefCumSum[complex64], Prefix: "sum",
 		Shape: ik.Shape{HasX: true, HasDst: true, RetDst: true, AliasX: true},
 		Call:  func(a *vkArgs) { a.RetS = CumSum(a.Dst, a.X) }},
-	{Name: "CumProd", Family: "Elem", Classes: vkAll, Ref: ik.RefCumProd[complex64],
+	{Name: "CumProd", Family: "Elem", Classes: vkAll, Ref: ik.RefCumProd[complex64], Prefix: "prod",
 		Shape: ik.Shape{HasX: true, HasDst: true, RetDst: true, AliasX: true},
 		Call:  func(a *vkArgs) { a.RetS = CumProd(a.Dst, a.X) }},
 	{Name: "Div", Family: "Elem", Classes: vkAll, Ref: ik.RefDiv[complex64],
